@@ -13,22 +13,38 @@ import (
 
 // ---------- expressions ----------
 
-// Mon is a monetary expression: a literal [Asset Amt] or a variable ($name).
+// Mon is a monetary expression: a literal [Asset Amt], a variable ($name), or the
+// sum / difference `L + R`, `L - R` of two monetary expressions (grammar rule
+// ExprAddSub, left-associative: R is never itself a sum or difference).
 type Mon struct {
 	Var   string // "" for a literal, else variable name without '$'
 	Asset string // literal asset, or "$ast" (asset variable) inside a literal
 	Amt   string // decimal digits
+	Op    string // "" (literal / variable), "+" or "-"
+	L, R  *Mon   // operands when Op != ""
 }
 
 func LitMon(asset string, amt int64) Mon { return Mon{Asset: asset, Amt: fmt.Sprint(amt)} }
 func VarMon(name string) Mon             { return Mon{Var: name} }
 
+// BigMon is a literal whose amount is given by its decimal digits (amounts beyond int64).
+func BigMon(asset, digits string) Mon { return Mon{Asset: asset, Amt: digits} }
+
+// BinMon is `l op r` (op "+" or "-").
+func BinMon(l Mon, op string, r Mon) Mon { return Mon{Op: op, L: &l, R: &r} }
+
 func (m Mon) String() string {
+	if m.Op != "" {
+		return m.L.String() + " " + m.Op + " " + m.R.String()
+	}
 	if m.Var != "" {
 		return "$" + m.Var
 	}
 	return "[" + m.Asset + " " + m.Amt + "]"
 }
+
+// IsExpr reports whether m is a sum or difference.
+func (m Mon) IsExpr() bool { return m.Op != "" }
 
 // ---------- sources ----------
 
@@ -266,8 +282,11 @@ type Catalog map[string]VarDecl
 type Program struct {
 	Stmts []*Stmt
 	Cat   Catalog
-	text  string
-	used  []string
+	// BalMenu, when set, replaces the default balance menu of the input enumeration for
+	// this program (every account in balance-relevant position takes every value of it).
+	BalMenu []*big.Int
+	text    string
+	used    []string
 }
 
 // UsedVars lists (sorted, with origin dependencies first) the variables the
@@ -431,8 +450,24 @@ func (e *Env) AssetOf(expr string) (string, bool) {
 	return expr, true
 }
 
-// Monetary resolves a monetary expression to (asset, amount).
+// Monetary resolves a monetary expression to (asset, amount). A difference may be
+// negative: the value is the arithmetic one, the caller decides what it means. The
+// operands of a sum / difference must be in the same asset (ok=false otherwise).
 func (e *Env) Monetary(m Mon) (string, *big.Int, bool) {
+	if m.Op != "" {
+		la, lv, ok := e.Monetary(*m.L)
+		if !ok {
+			return "", nil, false
+		}
+		ra, rv, ok := e.Monetary(*m.R)
+		if !ok || la != ra {
+			return "", nil, false
+		}
+		if m.Op == "-" {
+			return la, new(big.Int).Sub(lv, rv), true
+		}
+		return la, new(big.Int).Add(lv, rv), true
+	}
 	if m.Var != "" {
 		v, ok := e.Value(m.Var)
 		if !ok {
